@@ -3,23 +3,29 @@ Tie: (a) effect inventory of the source regenerated every run (no write/create/d
 API is called outside tests) — props/c13_runtime.py; (b) thorough: the real binary under strace;
 (c) both tiers: full manifest (paths, types, sizes, content hashes, link targets, mtimes, modes)
 of the generated tree — served root AND everything around it — before and after each batch of
-the C04-style campaign plus upload-shaped PUT/DELETE/PATCH/POST bodies."""
-from vlib import common as C, serve as S, reqgen as G, strict_http as H, servecheck as K
+the C04-style campaign plus upload-shaped PUT/DELETE/PATCH/POST bodies, and at probe points inside
+each batch; (d) sentinel directories OUTSIDE the generated trees (the temporary directory, the home
+directory, a directory of absolute names the requests mention) compared before/after the whole run;
+(e) the real binary started in a served directory that holds a configuration file.
+Generators: vlib/gen_c13.py (class table: AUDIT.md of the generator audit)."""
+import os, threading
+from vlib import common as C, serve as S, reqgen as G, strict_http as H, servecheck as K, gen_c13 as X
 from props import c04
 
 DRIVERS = ['Serve']   # model driver files this check runs: scopes translator failures to the tables they (and the proofs) import
-TRUSTED = ['manifest taken by the harness itself (FNV-1a content hash, symlink_metadata)']
+TRUSTED = ['manifest taken by the harness itself (FNV-1a content hash, symlink_metadata)', 'sentinel directories: manifest taken by props/c13_runtime.manifest (lstat + sha256)']
 ASSUMPTIONS = ['the proof is about the model\'s effect signature (the file system is an input only); the tie to the code is the inventory, the manifests and (thorough) strace']
 WITH_MODEL = True
 
-def upload_cases(rng, tree):
+def upload_cases(rng, tree, newfile='/newfile.txt'):
+    """the first upload family of this check, kept as it was (the request stream of the kept seeded changes depends on it)"""
     names = ['/' + n.decode('utf-8', 'surrogateescape') for n in tree.names]
     cases = []
     mp = (b'--B\r\nContent-Disposition: form-data; name="file"; filename="%s"\r\nContent-Type: application/octet-stream\r\n\r\nOVERWRITTEN\r\n--B--\r\n')
     for m in ('PUT', 'DELETE', 'PATCH', 'POST', 'GET', 'OPTIONS', 'TRACE', 'CONNECT'):
-        for t in names[:4] + ['/newfile.txt', '/sub/new.txt', '/sub/', '/', '/../escape.txt', '/file-upload/initiate?name=' + names[0][1:] + '&lastModified=1&size=11',
+        for t in names[:4] + [newfile, '/sub/new.txt', '/sub/', '/', '/../escape.txt', '/file-upload/initiate?name=' + names[0][1:] + '&lastModified=1&size=11',
                               '/form-multipart-enctype-post-method', '/form-url-encoded-enctype-post-method', '/form-get-method?file=' + names[0][1:]]:
-            fn = rng.choice([names[0][1:], '../escape.txt', 'new.bin', '/etc/rws-escape']).encode('utf-8', 'surrogateescape')
+            fn = rng.choice([names[0][1:], '../escape.txt', 'new.bin', '/nonexistent-rws-c13/rws-escape']).encode('utf-8', 'surrogateescape')
             for ct, body in (('multipart/form-data; boundary=B', mp % fn), ('application/x-www-form-urlencoded', b'name=' + fn + b'&content=OVERWRITTEN'),
                              ('application/octet-stream', b'OVERWRITTEN'), (None, b'')):
                 hs = [('Content-Type', ct)] if ct else []
@@ -27,10 +33,11 @@ def upload_cases(rng, tree):
                 cases.append(K.mk(tree, m, t, hs, body, entry=rng.choice(['proc', 'preq']), kind='upload-shaped'))
     return cases
 
-def run(res, tier, seed):
-    rng = C.Rng(seed)
-    batches = c04.build(rng, tier)[: (3 if tier == 'quick' else 40)]
-    for i in range(3 if tier == 'quick' else 30):
+def build(rng, tier, sent):
+    """-> [(env | None, [(tree, cases)])]: the batches of the default configuration and of two other configurations"""
+    quick = tier == 'quick'
+    batches = c04.build(rng, tier)[: (3 if quick else 40)]
+    for i in range(3 if quick else 30):
         tree = S.gen_tree(rng, small=True)
         # plus a read of EVERY name of the tree (files, links, links reached through linked directories, directories, missing
         # neighbours) with GET / HEAD / Range: a read path that creates what it does not find changes the manifest
@@ -39,7 +46,7 @@ def run(res, tier, seed):
             t = '/' + n.decode('utf-8', 'surrogateescape')
             for m, hs in (('GET', []), ('HEAD', []), ('GET', [('Range', 'bytes=0-0')]), ('GET', [('Range', 'bytes=0-99999')])):
                 reads.append(K.mk(tree, m, t, hs, entry=rng.choice(['proc', 'preq']), kind='read-every-name'))
-        batches.append((tree, upload_cases(rng, tree) + reads))
+        batches.append((tree, upload_cases(rng, tree, '/' + sent.tag + '-newfile.txt') + reads))
     for shape in range(2):
         # the tree shape in which the kernel's and a textual resolution of a relative link disagree, always present
         tree = S.gen_tree(rng, small=True)
@@ -51,31 +58,200 @@ def run(res, tier, seed):
         reads = [K.mk(tree, m, '/' + n.decode('utf-8', 'surrogateescape'), hs, entry=e, kind='read-every-name')
                  for n in tree.names for m, hs in (('GET', []), ('HEAD', []), ('GET', [('Range', 'bytes=0-0')])) for e in ('proc', 'preq')]
         batches.append((tree, reads))
-    results = K.run_batches(batches, with_model=WITH_MODEL)
-    for c, r, il, ml in results:
-        res.evaluations += 1
-        res.distinct.add(hash((c.entry, c.raw)))
-        res.count(f'{c.kind} {c.entry}')
-        if ml is not None:
-            res.programs += 1
-            if il != ml: res.disagree(c.line[:400], il[:300], ml[:300], 'Server')
-    for tree, cases in batches:
-        res.count('batches with manifest compared')
-        if not tree.manifest_ok:
-            b, a = tree.manifest
-            sb, sa = set(b.split(',')), set(a.split(','))
-            delta = sorted(sa ^ sb)[:6]
-            res.fail('tree-modified', tree.line()[:300], str(delta)[:400], None,
-                     f'C13: the tree manifest changed during a batch of {len(cases)} requests: {len(sa - sb)} entries new/changed, {len(sb - sa)} gone/changed')
+    # ---- the families of vlib/gen_c13.py on enriched trees (every link shape, conventional upload / cache / log places, names that
+    # need escaping); every tree is read completely, the other families rotate over the trees (quick) or all run on every tree
+    fams = [lambda t: X.upload_cases(rng, t, sent, tier), lambda t: X.history_cases(rng, t, sent, tier) + X.transport_cases(rng, t, tier) + X.rejected_cases(rng, t, tier),
+            lambda t: X.vocab_cases(rng, t, sent, tier) + X.aexec_cases(rng, t, sent, tier) + X.endpoint_cases(rng, t, tier)]
+    for i in range(3 if quick else 18):
+        tree = X.enrich(rng, S.gen_tree(rng, small=True), sent)
+        cases = X.read_cases(rng, tree, tier)
+        for f in ([fams[i % 3]] if quick else fams): cases += f(tree)
+        batches.append((tree, cases))
+    # ---- the files the built-in controllers look for, in every state (absent / regular / empty / link / dangling link / directory)
+    for k in range(6):
+        tree = X.builtin_variant_tree(rng, k, sent)
+        batches.append((tree, X.endpoint_cases(rng, tree, tier) + (X.read_cases(rng, tree, tier) if not quick else [])))
+    groups = [(None, [(t, X.with_probes(cs, 60 if len(cs) < 3000 else 150)) for t, cs in batches])]
+    # ---- other configurations: a restricted CORS list with a 5000-byte buffer, and no configuration at all
+    for env in (X.CORS_ENV, X.BARE_ENV):
+        g = []
+        for i in range(1 if quick else 4):
+            tree = X.enrich(rng, S.gen_tree(rng, small=True), sent)
+            cases = X.cors_cases(rng, tree, tier) + X.initiate_cases(rng, tree, X.name_pool(tree, sent), tier) + X.endpoint_cases(rng, tree, tier)
+            if not quick: cases += X.upload_cases(rng, tree, sent, tier) + X.read_cases(rng, tree, tier)
+            g.append((tree, X.with_probes(cases)))
+        groups.append((env, g))
+    return groups
+
+def same_but_for_time(il, ml):
+    """vlib.serve.canon masks the two time-stamp headers only when something was written; the legacy entry point RETURNS the
+    answer also when its first write fails (`preq … e:0`): then the returned bytes are compared with the time stamps masked here"""
+    tail = ' w=- recv=- fl=0'
+    if not (il.startswith('ret:') and ml.startswith('ret:') and il.endswith(tail) and ml.endswith(tail)): return False
+    try: return S.mask_ts(C.unhx(il[4:-len(tail)])) == S.mask_ts(C.unhx(ml[4:-len(tail)]))
+    except ValueError: return False
+
+def localise(tree, env, cases, lo, hi):
+    """the batch again (implementation only) with a manifest after every case of the window (lo, hi]: the first case after which
+    the manifest differs from the one before it, or None"""
+    real = [c for c in cases[:hi + 1] if c.kind != X.PROBE]
+    nlo = len([c for c in cases[:lo + 1] if c.kind != X.PROBE])
+    lines = [tree.line(), S.env_line(env), 'manifest'] + [c.line for c in real[:nlo]] + ['manifest']
+    for c in real[nlo:]: lines += [c.line, 'manifest']
+    out, _ = S.run_stateful([C.HARNESS_BIN, 'serve'], lines)
+    if any(o.startswith('abort') for o in out): return None
+    prev = out[3 + nlo]
+    for j, c in enumerate(real[nlo:]):
+        cur = out[3 + nlo + 2 + 2 * j]
+        if cur != prev: return c, prev, cur
+        prev = cur
+    return None
+
+def delta(before, after):
+    sb, sa = set(before.split(' ', 1)[-1].split(',')), set(after.split(' ', 1)[-1].split(','))
+    def show(e):
+        f = e.split(':')
+        try: f[0] = C.unhx(f[0]).decode('utf-8', 'replace')
+        except ValueError: pass
+        return ':'.join(f)
+    return dict(new_or_changed=[show(e) for e in sorted(sa - sb)[:6]], gone_or_changed=[show(e) for e in sorted(sb - sa)[:6]], n_new=len(sa - sb), n_gone=len(sb - sa))
+
+def judge_manifests(res, tree, env, cases, rows):
+    """the manifest of the whole generated tree is the same at the start of the batch, at every probe and at its end.  (When the
+    harness process ended on a case - `abort` - the tree was rebuilt for the rest: manifests are compared per process.)"""
+    res.count('batches with manifest compared')
+    aborts = [k for k, (c, r, il, ml) in enumerate(rows) if r['head'].startswith('abort')]
+    last_abort = aborts[-1] if aborts else -1
+    cur, cur_k = (tree.manifest[0] if last_abort < 0 else None), -1
+    bad = None
+    for k, (c, r, il, ml) in enumerate(rows):
+        if k in aborts:
+            cur, cur_k = (tree.manifest[0] if k == last_abort else None), k
+            continue
+        if c.kind != X.PROBE: continue
+        res.count('manifest probes')
+        m = r['head']
+        if cur is not None and m != cur and bad is None: bad = (cur_k, k, cur, m)
+        cur, cur_k = m, k
+    if bad is None and (cur != tree.manifest[1] or not tree.manifest[1].startswith('ok')):
+        bad = (cur_k, len(rows) - 1, cur or tree.manifest[0], tree.manifest[1])
+    if bad is None: return
+    lo, hi, mb, ma = bad
+    d = delta(mb, ma)
+    found = localise(tree, env, cases, lo, hi) if not aborts else None
+    if found:
+        c, pb, pa = found
+        d = delta(pb, pa)
+        res.fail('tree-modified', dict(mode='serve', line=c.line[:2000], tree=tree.line()[:300], kind=c.kind, request=repr(c.raw[:300])), str(d)[:600], None,
+                 f'C13: the manifest of the generated tree changed while this request ({c.kind}, entry {c.entry}) was served: {d["n_new"]} entries new/changed, {d["n_gone"]} gone/changed')
+    else:
+        window = [c for c in cases[lo + 1:hi + 1] if c.kind != X.PROBE]
+        res.fail('tree-modified', dict(mode='serve', tree=tree.line()[:300], first=window[0].line[:600] if window else None, last=window[-1].line[:600] if window else None), str(d)[:600], None,
+                 f'C13: the tree manifest changed during a window of {len(window)} requests of a batch of {len(cases)}: {d["n_new"]} entries new/changed, {d["n_gone"]} gone/changed')
+
+def startup_config_check(res, tier, seed):
+    """(e) the real binary started in a served directory that holds rws.config.toml (restricted CORS list, another buffer size),
+    with the configuration also given by environment and command line: manifest of the arena before the start / after the stop"""
+    import tempfile, shutil
     from props import c13_runtime as RT
+    from vlib import realbin as R
+    rng = C.Rng(seed).fork('c13-startup-config')
+    ok, out = R.build()
+    if not ok: return
+    base = tempfile.mkdtemp(prefix='rws-c13c-')
+    try:
+        ar = RT.make_arena(base, rng.fork('arena'), n_files=12)
+        cfg = ("ip = '127.0.0.1'\nport = 7888\nthread_count = 3\nrequest-allocation-size-in-bytes = 12000 # comment\n\n[cors]\nallow_all = false\n"
+               'allow_origins = ["https://foo.example", "https://bar.example"]\nallow_methods = ["GET", "DELETE", "PUT", "PATCH"]\nallow_headers = ["content-type", "x-custom-header"]\n'
+               'allow_credentials = true\nexpose_headers = ["content-type"]\nmax_age = "600"\n')
+        with open(os.path.join(ar.docroot, 'rws.config.toml'), 'w') as fh: fh.write(cfg)
+        for extra in ('rws.config.toml.bak', 'rws.pid', '.rws'):
+            with open(os.path.join(ar.docroot, extra), 'wb') as fh: fh.write(b'sentinel ' + extra.encode())
+        before = RT.manifest(ar.base)
+        n = 0
+        for env, args in (({'TMPDIR': ar.tmpdir, 'HOME': ar.tmpdir}, ()), ({'TMPDIR': ar.tmpdir, 'HOME': ar.tmpdir, 'RWS_CONFIG_CORS_ALLOW_ALL': 'true', 'RWS_CONFIG_REQUEST_ALLOCATION_SIZE_IN_BYTES': '5000'},
+                                                                          ('--cors-allow-all=false', '--cors-allow-origins=https://foo.example'))):
+            with R.Server(ar.docroot, threads=3, env=env, args=args, capture_stdout=False) as srv:
+                reqs = RT.upload_requests(rng.fork('upload%d' % n), sorted(ar.files), 60 if tier == 'quick' else 400)
+                for o in ('https://foo.example', 'https://evil.example', 'null'):
+                    for m, t in (('GET', '/upload.txt'), ('OPTIONS', '/upload.txt'), ('PUT', '/uploads/new.bin'), ('DELETE', '/upload.txt'), ('GET', '/rws.config.toml'), ('PUT', '/rws.config.toml'),
+                                 ('POST', '/file-upload/initiate?name=new.bin&lastModified=1&size=9000')):
+                        reqs.append(G.req(m, t, 'HTTP/1.1', [('Host', 'localhost'), ('Origin', o), ('Access-Control-Request-Method', 'PUT'), ('Content-Length', '1')], b'x'))
+                # requests larger than the buffer (the campaign of c13_runtime keeps below it): what does not fit must not be spilled
+                for total in (11999, 12000, 12001, 24001, 70000):
+                    reqs.append(G.req('PUT', '/uploads/big-%d.bin' % total, 'HTTP/1.1', [('Host', 'localhost'), ('Content-Length', str(total))], b'B' * total))
+                    reqs.append(G.req('POST', '/form-multipart-enctype-post-method', 'HTTP/1.1', [('Host', 'localhost'), ('Content-Type', 'multipart/form-data; boundary=B')],
+                                      X.multipart('B', [X.p_file(b'file', 'big-%d.bin' % total, b'F' * total), X.BAD_PARTS[0]])))
+                for r in reqs:
+                    if not srv.alive(): break
+                    try: srv.request(r, timeout=10)
+                    except Exception: pass
+                    n += 1
+        d = RT.diff_manifest(before, RT.manifest(ar.base))
+        res.evaluations += n; res.programs += n
+        res.count('requests to the real binary started with a configuration file', n)
+        for line in d[:10]:
+            res.fail('tree-modified:' + line.split(' ')[0], dict(difference=line, requests=n, start='real binary, served directory holds rws.config.toml'), line, 'no difference',
+                     'the manifest of the served tree / sentinel directories changed between the start and the stop of the real binary (configuration file present): ' + line)
+    finally:
+        shutil.rmtree(base, ignore_errors=True)
+
+def run(res, tier, seed):
+    rng = C.Rng(seed)
+    from props import c13_runtime as RT
+    with X.Sentinel(seed) as sent:
+        outside_before = sent.snapshot()
+        groups = build(rng, tier, sent)
+        out = [None] * len(groups)
+        def work(i):
+            out[i] = K.run_batches(groups[i][1], with_model=WITH_MODEL, env=groups[i][0])
+        ts = [threading.Thread(target=work, args=(i,)) for i in range(len(groups))]
+        for t in ts: t.start()
+        for t in ts: t.join()
+        outside_after = sent.snapshot()
+        sent.restore_env()
+        nbatches = nreq = 0
+        for (env, batches), results in zip(groups, out):
+            pos = 0
+            for tree, cases in batches:
+                rows = results[pos:pos + len(cases)]; pos += len(cases)
+                nbatches += 1
+                for c, r, il, ml in rows:
+                    if c.kind == X.PROBE: continue
+                    nreq += 1
+                    res.evaluations += 1
+                    res.distinct.add(hash((c.entry, c.raw)))
+                    res.count(f'{c.kind} {c.entry}')
+                    if ml is not None:
+                        res.programs += 1
+                        if il != ml and not same_but_for_time(il, ml): res.disagree(c.line[:400], il[:300], ml[:300], 'Server')
+                if not getattr(tree, 'setup_ok', True):
+                    res.disagree(tree.line()[:300], 'the harness could not build this tree', 'ok', 'c13-tree-setup')
+                judge_manifests(res, tree, env, cases, rows)
+        # (d) nothing appeared, vanished or changed OUTSIDE the generated trees: temporary directory, home directory, the absolute names
+        # the requests mention (only the tree directories of the harness itself are exempt)
+        for line in RT.diff_manifest(outside_before, outside_after)[:10]:
+            res.fail('outside-modified:' + line.split(' ')[0], dict(difference=line.replace(sent.base, '<sentinel>'), requests=nreq), line.replace(sent.base, '<sentinel>'), 'no difference',
+                     'C13: a sentinel directory outside every served tree (TMPDIR / HOME / absolute names mentioned by requests) changed during the campaign: ' + line.replace(sent.base, '<sentinel>'))
+        # ... and the names that a textual resolution of a `//` link target (or a request target taken as a file name) places at the ROOT of
+        # the file system: unique to this run, must not exist there (removed again if they do)
+        for p in sent.root_strays():
+            res.fail('outside-modified:CREATED', dict(difference='CREATED ' + p, requests=nreq), 'CREATED ' + p, 'no difference',
+                     'C13: a file appeared at the root of the file system under a name only this run\'s link targets / request names mention: ' + p)
+        sent.clean_root()
+        res.count('sentinel entries outside the trees compared', len(outside_before) + len(sent.root_names))
+        sample_manifest = groups[0][1][0][0].manifest[0][:200]
     RT.report_inventory(res)                      # (a) effect inventory of the source, regenerated now
     RT.manifest_check(res, tier, seed)            # (c') the REAL binary over an arena with sentinel directories
+    startup_config_check(res, tier, seed)         # (e) the real binary next to a configuration file
     if tier == 'thorough':
         st = RT.strace_check(tier, seed)          # (b) the real binary under strace
         res.extra['strace'] = {k: v for k, v in st.items() if k != 'violations'}
         for v in st['violations'][:5]:
             res.fail('syscall:' + str(v)[:60], 'strace campaign', str(v)[:300], None, 'C13: the server issued a file-modifying system call')
-    res.rule = ('request sequences of the C04 campaign and upload-shaped bodies (multipart with filename incl. ../ and absolute names, urlencoded, octet-stream) on '
-                'PUT/DELETE/PATCH/POST/GET/OPTIONS/TRACE/CONNECT against files, directories, new names, the form and file-upload endpoints, both entry points; '
-                'the manifest of the WHOLE generated tree (root, ancestors, siblings) is compared before/after each batch; distinct = (entry, request)')
-    res.sample({'batches': len(batches), 'requests': len(results), 'manifest_sample': batches[0][0].manifest[0][:200]})
+    res.rule = ('request sequences of the C04 campaign and upload-shaped bodies (multipart with file parts in every position / spelling, urlencoded, octet-stream, chunked, sized around the buffer) on '
+                'every method incl. WebDAV against files, directories, links of every shape (dangling, chains, loops, absolute, through linked directories), new names, traversals, absolute names, '
+                'the built-in routes with their files in six states, the form and file-upload endpoints at every numeric threshold, rejected requests, transport failures, histories, the source\'s own '
+                'vocabulary, three configurations, both entry points and the handler called directly; the manifest of the WHOLE generated tree (root, ancestors, siblings) is compared before/after '
+                'each batch and at probes inside it, sentinel directories outside the trees before/after the run; distinct = (entry, request)')
+    res.sample({'batches': nbatches, 'requests': nreq, 'manifest_sample': sample_manifest})
